@@ -39,6 +39,7 @@ MAP = [
     ("P:serde-plain:", "serde_roundtrip"),
     ("V:cli:", "cli_pipeline"),
     ("V:state:as_svg_uses:", "svg_places"),
+    ("V:geom:as_svg_matrix_args:", "svg_places"),
 ]
 
 
